@@ -116,6 +116,7 @@ func main() {
 	close(ch)
 	wg.Wait()
 	pprof.StopCPUProfile()
+	res.HitN("event-queries-with-events", int(nonEmptyEventAnswers.Load()))
 	lib.Finish(f, res)
 }
 
